@@ -125,7 +125,7 @@ REMOTE = {
     "a": b"A" * 1000,
     "b": b"B" * 1000,
     "c": b"C" * 1000,
-    "big": b"G" * 5000,
+    "big": b"G" * 4005,  # > both size limits; 4005 is a byte count that the GB-float config round trip truncates to 4004
 }
 for _i in range(12):
     REMOTE["s%d" % _i] = bytes([97 + _i]) * (200 + _i)
